@@ -214,6 +214,23 @@ def gap_circuit(rng):
     return c, None
 
 
+def wide_circuit(rng):
+    """Directed shape: ONE net with several hundred readers (a clock / reset / enable stem) -- counters of seen lines per node must not
+    be narrower than the fan-out."""
+    from kyupy.circuit import Circuit, Node, Line
+    c = Circuit('wide')
+    n = rng.choice([255, 256, 257, 300, 513])
+    a = Node(c, 'a', 'input'); c.io_nodes.append(a)
+    g = Node(c, 'g', 'BUF1'); Line(c, a, g)
+    f = Node(c, 'f', '__fork__'); Line(c, g, f)
+    for i in range(n):
+        b = Node(c, f'b{i}', rng.choice(['BUF1', 'INV1']))
+        Line(c, f, b)
+        if i % 64 == 0:
+            o = Node(c, f'o{i}', 'output'); c.io_nodes.append(o); Line(c, b, o)
+    return c, None
+
+
 def traverse_then_edit(rng, c, op=None):
     """A circuit object is traversed, EDITED, and traversed again: everything is queried once (results dropped), then one line is added
     without changing the node count (from a fork to a free input pin of a node of a higher level, so the graph stays acyclic) or one
@@ -258,7 +275,7 @@ def run(ck):
     rng = random.Random(ck.seed * 7919 + 17)
     fails, cases, meta = [], [], []
     for i in range(ck.scale(120, 3000)):
-        c, a = direct_state_circuit(rng) if i % 5 == 4 else gap_circuit(rng) if i % 5 == 2 else cg.gen_circuit(rng)
+        c, a = wide_circuit(rng) if i in (7, 57) else direct_state_circuit(rng) if i % 5 == 4 else gap_circuit(rng) if i % 5 == 2 else cg.gen_circuit(rng)
         edit, pre, eop = None, None, None
         if i % 4 == 3:
             pre = cg.describe(c)
